@@ -128,7 +128,7 @@ func boolReturns(h *ssa.Function) (trues, falses []*ssa.Return, ok bool) {
 		if !isRet {
 			continue
 		}
-		c, isC := ret.Results[0].(*ssa.Const)
+		c, isC := rvals(ret)[0].(*ssa.Const)
 		if !isC || c.Value == nil {
 			return nil, nil, false
 		}
@@ -296,7 +296,7 @@ func returnsFresh(h *ssa.Function) bool {
 		if !isRet || b == h.Recover {
 			continue
 		}
-		switch ret.Results[0].(type) {
+		switch rvals(ret)[0].(type) {
 		case *ssa.MakeMap, *ssa.MakeSlice, *ssa.Alloc:
 			ok = true
 		default:
@@ -378,4 +378,33 @@ func atomicOnlyParam(h *ssa.Function, prm *ssa.Parameter, depth int) bool {
 		return false
 	}
 	return true
+}
+
+// trivialFn: a module function that can neither panic nor have an effect: its body consists of returns, jumps,
+// arithmetic without division, conversions, and calls to other trivial functions (trace hooks, feature-flag getters).
+func trivialFn(f *ssa.Function, depth int) bool {
+	if f == nil || f.Blocks == nil || depth > 3 {
+		return false
+	}
+	ok := true
+	eachInstr(f, func(i ssa.Instruction) {
+		switch x := i.(type) {
+		case *ssa.Return, *ssa.Jump, *ssa.If, *ssa.Phi, *ssa.Convert, *ssa.ChangeType, *ssa.DebugRef:
+		case *ssa.BinOp:
+			if x.Op == token.QUO || x.Op == token.REM || x.Op == token.SHL || x.Op == token.SHR {
+				ok = false
+			}
+		case *ssa.UnOp:
+			if x.Op == token.MUL || x.Op == token.ARROW {
+				ok = false
+			}
+		case *ssa.Call:
+			if !trivialFn(x.Call.StaticCallee(), depth+1) {
+				ok = false
+			}
+		default:
+			ok = false
+		}
+	})
+	return ok
 }
